@@ -186,18 +186,55 @@ def run(ctx):
                         [getattr(fold.fold(k.value), "name", None) for k in c.keywords if k.arg == "direction"]
     ctx.instance("C09.renumbering-durable", "_finalize_message[persist direction]", dirs == ["INBOUND"] * len(dirs) and bool(dirs),
                  f"received frames are journaled under {dirs}", loc(fin))
-    # _finalize_message is reached on every processed message with a valid number: finally-epilogue of the dispatcher
+    # _finalize_message is the epilogue of the dispatcher on EVERY exit (return, exception, cancellation) once the number was found valid:
+    # as a `finally`, or as handlers that finalize and re-raise - decided on the CFG with exception edges
     pm = repo.func("AsyncFIXConnection._process_message")
-    in_finally = False
-    for t in walk_no_nested(pm):
-        if isinstance(t, ast.Try):
-            for st in t.finalbody:
-                for c in walk_no_nested(st):
-                    if isinstance(c, ast.Call) and res.resolve(c, pm) == ("func", "AsyncFIXConnection._finalize_message"):
-                        in_finally = True
-    ctx.instance("C09.renumbering-durable", "_process_message[finalize in finally]", in_finally,
-                 "_finalize_message is no longer the finally-epilogue of the dispatcher: a handler that raises (e.g. the application's on_message) "
-                 "leaves a delivered message uncounted and unjournaled, so it is requested and delivered again", loc(pm))
+    pg = CFG(pm)
+    fin_nodes = [n for n in pg.nodes if n.kind == "stmt" and any(isinstance(c, ast.Call) and res.resolve(c, pm) == ("func", "AsyncFIXConnection._finalize_message")
+                                                                   for c in walk_no_nested(n.ast))]
+    flag = None
+    for n in fin_nodes:
+        for t, lab in pg.guards(n.id, exc=True):
+            if isinstance(t, ast.Name) and lab == "true":
+                flag = t.id
+    w = None
+    if flag is not None and fin_nodes:
+        tests = {n.id for n in pg.nodes if n.kind == "test" and isinstance(n.ast, ast.Name) and n.ast.id == flag
+                 and any(lab == "true" and d in {f.id for f in fin_nodes} for d, lab in pg.succs(n.id, exc=False))}
+        srcs = [n.id for n in pg.nodes if n.kind == "stmt" and isinstance(n.ast, ast.Assign) and unparse(n.ast.targets[0]) == flag
+                and not (isinstance(n.ast.value, ast.Constant) and n.ast.value.value is False)]
+
+        def only_logs(n):
+            calls = [c for c in walk_no_nested(n.ast)] if n.ast is not None else []
+            calls = [c for c in calls if isinstance(c, ast.Call)]
+            return bool(calls) and all(unparse(c.func).startswith(("self.log.", "logging.", "repr", "str")) for c in calls) and not any(isinstance(c, ast.Await) for c in walk_no_nested(n.ast))
+        quiet = {n.id for n in pg.nodes if n.kind == "stmt" and only_logs(n)}
+        for s0 in srcs:
+            seen, todo, par = {s0}, [s0], {}
+            hit = None
+            while todo and hit is None:
+                cur = todo.pop()
+                for d, lab in pg.succs(cur, exc=True):
+                    if lab.startswith("exc") and cur in quiet:
+                        continue  # a logging call is not taken to raise
+                    if d in tests or d in seen:
+                        continue
+                    par[d] = cur
+                    if d in (pg.exit, pg.raise_exit):
+                        hit = d
+                        break
+                    seen.add(d)
+                    todo.append(d)
+            if hit is not None:
+                path = [hit]
+                while path[-1] in par:
+                    path.append(par[path[-1]])
+                w = list(reversed(path))
+                break
+    ctx.instance("C09.renumbering-durable", "_process_message[finalize in finally]", flag is not None and bool(fin_nodes) and w is None,
+                 "_finalize_message is not the epilogue of the dispatcher on every exit: a handler that raises or is cancelled (e.g. the application's on_message), "
+                 "or an early return after the number was found valid, leaves a processed message uncounted and unjournaled, so it is requested and delivered again",
+                 loc(pm), pg.describe(w or [])[-8:])
 
     # ---- rule 6: after the replay the restored counter is the last thing stored for the outbound direction
     from sa.rewind import Rewind
